@@ -1,6 +1,6 @@
 (* C07 — property theorems only: each restates the full statement and is closed by the lemma proved in Proofs/. *)
 From Coq Require Import ZArith List Bool.
-From NPS Require Import ListAux PySlice NumpySem Scatter BuildIdx XorBroadcast View Index Assign Reduce Scan RaOps Heap Hash HashRun BitArr RLE RLEOps RLE2d DataClass RowsSpec AssignSpec MapSpec Denote ScanProof AccumProof DiffProof SortProof UniqueProof UniqueLens.
+From NPS Require Import ListAux PySlice NumpySem Scatter BuildIdx XorBroadcast View Index Assign Reduce Scan RaOps Heap Hash HashRun BitArr RLE RLEOps RLE2d DataClass RowsSpec AssignSpec MapSpec Denote ScanProof AccumProof DiffProof SortProof BucketSort LexSort UniqueProof UniqueLens.
 Import ListNotations.
 Open Scope Z_scope.
 
@@ -36,6 +36,23 @@ Theorem C07_diff_correct :
        ra_diff (Z.of_nat n) (fr_of_rows R) = Ok (fr_of_rows (spec_diff (Z.of_nat n) R)).
 Proof. exact diff_correct. Qed.
 Print Assumptions C07_diff_correct.
+
+Theorem C07_sort_buckets :
+  forall (X : Type) (lo : Z) (n : nat) (l : list (Z * X)),
+       Forall (fun q : Z * X => lo <= fst q < lo + Z.of_nat n) l -> stable_sort l = buckets X l lo n.
+Proof. exact sort_buckets. Qed.
+Print Assumptions C07_sort_buckets.
+
+Theorem C07_two_pass_rows :
+  forall (vlo : Z) (vn : nat) (R : list (list Z)),
+       Forall (Forall (inb vlo vn)) R -> two_pass (labelled 0 R) = concat (map sortrow R).
+Proof. exact two_pass_rows. Qed.
+Print Assumptions C07_two_pass_rows.
+
+Theorem C07_index_array_char :
+  forall ls : list Z, all_nonneg ls -> index_array ls = lab_list 0 ls.
+Proof. exact index_array_char. Qed.
+Print Assumptions C07_index_array_char.
 
 Theorem C07_sort_correct :
   forall R : list (list Z), ra_sort (fr_of_rows R) = Ok (fr_of_rows (spec_sort R)).
